@@ -38,7 +38,7 @@ def execOp (st : DrvState) (toks : List String) : DrvState × String :=
   | "race" :: _ => (st, "skip")
   | "wire" :: _ => (st, "skip")     -- wire stage: real sockets and goroutines; oracles only
   | stream :: op :: args =>
-    if ["rr", "route", "res", "pins", "pool"].contains stream then
+    if ["rr", "route", "res", "res2", "pins", "pool"].contains stream then
       let (s', out) := execSide st.side stream op args
       ({ st with side := s' }, out)
     else (st, "bad-op")
@@ -51,7 +51,7 @@ def specStateful (st : DrvState) (toks impl : List String) : DrvState × List St
     let (s', errs) := specSend st.send op impl
     ({ st with send := s' }, errs)
   | stream :: op :: args =>
-    if ["rr", "route", "res", "pins", "pool"].contains stream then
+    if ["rr", "route", "res", "res2", "pins", "pool"].contains stream then
       let (s', errs) := specSide st.side stream op args impl
       ({ st with side := s' }, errs)
     else (st, [])
